@@ -1,0 +1,13 @@
+//go:build verif
+
+package repl
+
+// VerifCrashHook, when set by a verification harness, is called at the named points of AutoSave so that a
+// harness can stop the "process" there. Only built with -tags verif.
+var VerifCrashHook func(point string)
+
+func verifCrashPoint(point string) {
+	if VerifCrashHook != nil {
+		VerifCrashHook(point)
+	}
+}
